@@ -40,6 +40,7 @@ func isCallSuffix(v ssa.Value, suffix string) (*ssa.Call, bool) {
 func runC02(ctx *core.Ctx) {
 	ctx.Trusted = append(ctx.Trusted, "go/types, go/ssa", "os.Expand calls its mapping function once per reference and does not rescan the result; os/exec passes Cmd.Env to the child")
 	p := ctx.P
+	ctx.Rule("N13", "the lookup map is rebuilt from the whole list: each MapUpdate of envMap in setup takes its key and value from element i of TestScript.env, i counting from 0 to len", 1)
 	ctx.Rule("N1", "environment list and map stay coherent: TestScript.env and TestScript.envMap are written only in setup (which rebuilds the map from the list) and in Setenv (which appends key=value to the list and stores the same value under envvarname(key) in the map); every index into envMap uses a key produced by envvarname", 5)
 	ctx.Rule("N2", "children see the list: every Cmd.Start in package testscript is dominated by a store of Cmd.Env derived from TestScript.env and of Cmd.Dir derived from TestScript.cd on that command", 2)
 	ctx.Rule("N3", "no re-expansion, no re-splitting: no argument of expand/os.Expand/parse derives from a result of expand; inside the tokenizer every expand operand is a sub-slice of the line parameter", 3)
@@ -119,6 +120,54 @@ func runC02(ctx *core.Ctx) {
 				okRebuild = true
 			}
 		})
+		// N13: the rebuild covers the whole list and nothing else fills the map
+		{
+			k := 0
+			g.Instrs(func(i ssa.Instruction) {
+				mu, ok := i.(*ssa.MapUpdate)
+				if !ok || !isFieldLoad("envMap")(mu.Map) {
+					return
+				}
+				k++
+				why := ""
+				kc, isK := isCallSuffix(mu.Key, "testscript.envvarname")
+				var kx ssa.Value
+				if isK {
+					kx, _, isK = beforeFirst(kc.Call.Args[0])
+				}
+				if !isK {
+					why = "the key is not envvarname(<text before '='> of a list entry)"
+				} else if ld, isL := ssax.Strip(kx).(*ssa.UnOp); !isL || ld.Op != token.MUL {
+					why = "the entry is not an element of the list"
+				} else if ia, isIA := ld.X.(*ssa.IndexAddr); !isIA {
+					why = "the entry is not an element of the list"
+				} else if !isFieldLoad("env")(ssax.Strip(ia.X)) {
+					why = "the entries come from " + ssax.AccessPath(ia.X) + ", not from the whole of TestScript.env"
+				} else if _, init, d, isC := counter(ia.Index); !isC {
+					why = "the entry index is not a counter stepping by one"
+				} else if a, isA := ssax.ConstInt(init); !isA || a+d != 0 {
+					why = "the entries are not visited from the first one"
+				} else if l, inL := innermostLoop(g, mu.Block().Index); !inL {
+					why = "the update is not in a loop"
+				} else {
+					full := false
+					for _, ex := range loopExits(g, l) {
+						if ce, isCE := exitIsCounted(g, l, ex[0], ex[1]); isCE {
+							if ln, isLn := ce.Bound.(*ssa.Call); isLn && isBuiltinCall(ln, "len") && (ln.Call.Args[0] == ia.X || isFieldLoad("env")(ssax.Strip(ln.Call.Args[0]))) {
+								full = true
+							}
+						}
+					}
+					if !full {
+						why = "the loop does not run to the end of the list"
+					}
+				}
+				ctx.Check(why == "", "N13", "testscript.setup#envMap-update"+itoa(k), mu.Pos(), "every entry setup puts into envMap comes from the loop over the whole final TestScript.env, first entry to last (a map pre-filled from the defaults, or filled from a tail of the list, disagrees with the list once Params.Setup removes or replaces a variable): %s", why)
+			})
+			if k == 0 {
+				ctx.Note("N13", "testscript.setup#envMap-update", setup.Pos(), "setup does not update envMap")
+			}
+		}
 		// the map is freshly made after env is final
 		ctx.Check(okRebuild, "N1", "testscript.setup#rebuild-map", setup.Pos(), "setup fills envMap from each KEY=VALUE entry of the final env list (key before the first '=', value after it)")
 	}
